@@ -213,3 +213,28 @@ PROPS["C12"] = {
         ],
     },
 }
+
+PROPS["C10"] = {
+    "pkg": "c10", "level": "exploration",
+    "technique": "property-based testing (rapid) of all 15 proof systems: honest statements built from boundary-lattice witnesses must verify; single perturbations of every "
+                 "public input, of the prover context (session tag, party id, extra transcript item) and substitution of every proof field by the same field of another "
+                 "valid proof (same and different statement, via reflection) must not verify",
+    "level_text": "Completeness on the documented witness ranges (0, +-1, +-(2^l-1), +-(2^l'-1), q-1, random) and binding to statement, context and transcript, checked as an "
+                  "executable accept/reject oracle per generated (system, witness class, perturbation, field). A panic inside Verify counts as rejection (counted).",
+    "level_note": "Black-box: a challenge that omits an input which the verification equations bind anyway is not observable. Range-soundness (oversized responses with "
+                  "consistent equations) needs a harness prover and is covered only where DESIGN.md says so. For nth, witnesses of order <= 2 (rho in {1, N-1}) are used for "
+                  "completeness only, because R^e is then independent of e by arithmetic.",
+    "rule": "case = (system, witness classes, perturbation kind, perturbed field); non-trivial iff a perturbation is applied or the witness is on the boundary lattice; "
+            "distinct = distinct class keys",
+    "assumptions": ["Paillier/Pedersen keys from the fixed pool of safe primes"],
+    "tiers": {
+        "quick": [
+            {"run": "^TestCheap$", "checks": 1600, "shards": 16},
+            {"run": "^TestCostly$", "checks": 320, "shards": 16},
+        ],
+        "thorough": [
+            {"run": "^TestCheap$", "checks": 48000, "shards": 16},
+            {"run": "^TestCostly$", "checks": 9600, "shards": 16, "timeout": 7000},
+        ],
+    },
+}
